@@ -499,6 +499,8 @@ class PathEnumerator:
                     e2[dl] = 1
                     for x in chain:
                         e2[x] = 1
+                elif dl is None and dty == "bool" and taken == {0}:
+                    ov = 1        # a bool read through a projection (`match (a, b)` switches on the tuple's fields)
                 elif dl is not None and len(taken) == 1 and taken <= {0, 1}:
                     # `if let Some(x) = opt` / `while let`: the otherwise edge of a two-variant enum's discriminant is the other variant
                     for st_ in reversed(fn.blocks[bb].stmts):
